@@ -10,7 +10,7 @@ from ..pm import AnalysisError, unparse
 from ..report import VERIF, Check
 from ..sym import Resolver, Term, path_of, show, walk
 from . import c08, wiring
-from .common import const_value, early_exits, is_path, iter_base, loc, loops_over, strip
+from .common import const_value, early_exits, holds_at, is_path, iter_base, loc, loops_over, strip
 
 EXPLANATION = (
     "static analysis of state carried between processing steps: the set of attributes written (transitively) by "
@@ -149,7 +149,7 @@ def step_state(check: Check) -> None:
                   f"previous_value is read outside the lock_previous block at lines {bad}", loc(fn))
     fn = p.func("Rule.deactivate")
     check.analysed(fn)
-    stores = {t.attr for s in ast.walk(fn.node) if isinstance(s, ast.Assign) for t in s.targets if isinstance(t, ast.Attribute)}
+    stores = {t.attr for s in ast.walk(fn.analysis_node) if isinstance(s, ast.Assign) for t in s.targets if isinstance(t, ast.Attribute)}
     check.require({"activation_degree", "triggered"} <= stores, "H5", "Rule.deactivate/resets", "deactivate resets activation_degree and triggered", loc(fn))
 
 
@@ -226,7 +226,13 @@ def restart(check: Check) -> None:
     rl = p.func("RuleBlock.reload_rules")
     check.analysed(rl)
     rr = Resolver(p, rl)
-    un = [n for n, c in rr.cfg.find_calls(".unload_rules")]
+    un = [n for n, c in rr.cfg.find_calls(".unload_rules") if rr.term(c.func.value, n) == ("param", "self")]  # type: ignore[union-attr]
+    # ... or the same thing spelled out: a loop over all rules of the block that unloads each one
+    for h, _, _ in loops_over(rr, lambda b: is_path(b, "self.rules")):
+        body = rr.cfg.loop_body(h)
+        calls_ = [n for n in body for c in rr.cfg.calls_in(n) if isinstance(c.func, ast.Attribute) and c.func.attr == "unload" and rr.term(c.func.value, n)[0] == "elem"]
+        if calls_ and not early_exits(rr.cfg, h) and not any(gn in body for n in calls_ for _, _, gn in rr.cfg.must_guards(n)):
+            un.append(h)
     ld = [(n, rr.term(c, n)) for n, c in rr.cfg.find_calls(".load_rules")]
     ok = bool(un) and bool(ld) and rr.cfg.must_precede(un, ld[0][0]) and ld[0][1][2] == (("param", rl.params[1].name),)
     check.require(ok, "H2", "RuleBlock.reload_rules/sequence", "reload = unload all rules, then load them against the given engine", loc(rl))
@@ -242,8 +248,9 @@ def restart(check: Check) -> None:
         f = p.func(qual)
         check.analysed(f)
         r2 = Resolver(p, f)
-        first = [s for s, _ in r2.cfg.entry.succ][0]
-        ok = any(isinstance(c.func, ast.Attribute) and c.func.attr == "deactivate" and r2.term(c.func.value, first) == ("param", "self") for c in r2.cfg.calls_in(first))
+        deact = [n for n, c in r2.cfg.find_calls(".deactivate") if r2.term(c.func.value, n) == ("param", "self")]  # type: ignore[union-attr]
+        effects = [n for n, c in r2.cfg.all_calls() if isinstance(c.func, ast.Attribute) and c.func.attr in ("load", "unload", "parse")]
+        ok = bool(deact) and bool(effects) and all(r2.cfg.must_precede(deact, n) for n in effects) and not any(r2.cfg.must_guards(n) for n in deact)
         check.require(ok, "H3", f"{qual}/deactivate-first", f"{qual} starts by resetting the rule's activation state", loc(f))
 
 
@@ -413,7 +420,7 @@ def engine_init(check: Check) -> None:
     upd = [(n, r.term(c, n)) for n, c in cfg.find_calls(".update_reference")]
     lds = [(n, r.term(c, n)) for n, c in cfg.find_calls(".load_rules")]
     ok_u = bool(upd) and all(t[2] == (("param", "self"),) for _, t in upd) and \
-        all(any(pol and r.term(g, gn) == ("param", "load") for g, pol, gn in cfg.must_guards(n)) for n, _ in upd)
+        all(holds_at(r, n, ("param", "load")) for n, _ in upd)
     # all variables, all terms
     every_term = ("elem", ("attr", ("elem", ("attr", ("param", "self"), "variables")), "terms"))
     all_terms = bool(upd) and all(t[1][0] == "attr" and t[1][1] == every_term for _, t in upd) and \
